@@ -127,7 +127,22 @@ fn c15_sentence(rng: &mut Rng) -> RefSentence {
         _ => rng.urange(3, 40),
     };
     while chars.len() < target {
-        if rng.chance(1, 4) {
+        if rng.chance(1, 60) {
+            // one very long extended grapheme cluster (dozens of combining marks / a long ZWJ chain)
+            if rng.chance(1, 2) {
+                chars.push('e');
+                for _ in 0..rng.urange(30, 50) {
+                    chars.push(*rng.pick(&['\u{0301}', '\u{0323}', '\u{3099}']));
+                }
+            } else {
+                for i in 0..rng.urange(9, 14) {
+                    if i > 0 {
+                        chars.push('\u{200d}');
+                    }
+                    chars.push(*rng.pick(&['👨', '👩', '👧']));
+                }
+            }
+        } else if rng.chance(1, 4) {
             chars.extend(rng.pick(CLUSTERS).chars());
         } else if rng.chance(1, 3) && !chars.is_empty() {
             let c = *chars.last().unwrap();
@@ -139,7 +154,7 @@ fn c15_sentence(rng: &mut Rng) -> RefSentence {
     let n = chars.len();
     let uw = *rng.pick(&[0u32, 3, 10]);
     let labels = vgen::gen::gen_labels(rng, n - 1, uw);
-    let n_tags = rng.below(4);
+    let n_tags = if rng.chance(1, 80) { rng.urange(31, 40) } else { rng.below(4) };
     let tags = (0..n).map(|_| (0..n_tags).map(|_| if rng.chance(1, 3) { Some(rng.pick(&["N", "V", "x y"]).to_string()) } else { None }).collect()).collect();
     RefSentence { chars, labels, tags }
 }
@@ -157,7 +172,7 @@ fn c15_rules(rng: &mut Rng, rs: &RefSentence) -> Vec<(String, Vec<Option<String>
         if rules.iter().any(|(k, _)| *k == surf) {
             continue;
         }
-        let k = rng.below(5);
+        let k = if rs.max_tags() > 8 { rng.urange(30, 42) } else { rng.below(5) };
         rules.push((surf, (0..k).map(|_| if rng.chance(3, 4) { Some(rng.pick(&["P", "Q", "r/s"]).to_string()) } else { None }).collect()));
     }
     rules
@@ -245,6 +260,8 @@ pub fn run_c15(ctx: &mut Ctx, from: u64, to: u64) {
         ctx.flag("sentences_with_unknown_boundary", rs.labels.contains(&2));
         ctx.flag("sentences_with_tags", rs.max_tags() > 0);
         ctx.flag("single_character_sentences", rs.chars.len() == 1);
+        ctx.flag("sentences_with_cluster_longer_than_64_bytes", s.graphemes(true).any(|g| g.len() > 64));
+        ctx.flag("sentences_with_more_than_32_tag_columns", rs.max_tags() > 32);
         let mut specs: Vec<FilterSpec> = (0..6).map(FilterSpec::WsConst).collect();
         specs.push(FilterSpec::Linebreaks);
         specs.push(FilterSpec::Graphemes);
